@@ -78,13 +78,15 @@ pub fn judge_rebackup(t: &Tree, opts: &BOpts, tag: &str, scratch: &Scratch) -> V
             ),
         ));
     }
-    // A third backup of the still unchanged tree under different settings: unchanged files keep
-    // their recorded addresses whatever the settings, so again nothing is written.
+    // A third backup of the still unchanged tree under different settings (other sizes, and owners
+    // no longer recorded): unchanged files keep their recorded addresses whatever the settings, so
+    // again nothing is written.
     let other = BOpts::new(
         if opts.hunk == 1 { 1000 } else { 1 },
         if opts.block == 4 { 8 } else { 4 },
         if opts.cap == 3 { 8 } else { 3 },
-    );
+    )
+    .without_owner();
     let icpt3 = Icpt::new(&arch, Plan::none());
     let out3 = run::do_backup(&arch, &src, &other, Some(&icpt3), Flavor::Current);
     let log3 = icpt3.take_log();
